@@ -29,7 +29,7 @@ META = {
     "assumptions": ["pinned formulas in spec/lengths.json and relations in spec/siblings.json were written from the standards; each pin is cross-checked against the "
                     "recorded frames in the repository's tests and dropped (listed) if it fails its own cross-check"],
 }
-WALL_BUDGET = {"quick": 480, "thorough": 3000}
+WALL_BUDGET = {"quick": 900, "thorough": 3000}
 
 
 def spec_lengths():
